@@ -225,35 +225,6 @@ theorem struct_fields_rendered (fmt : Fmt) (enc : TyExpr → Val → Out) (zero 
       (omitted fmt zero fs fd = false ∧ ∃ t, enc fd.ty (field fs fd.goName) = .ok t ∧ Val.lookup (keyOf fmt fd) out = some t) :=
   encodeFields_field fmt enc zero fds fs out hni hnd h
 
-theorem nodupB_nodup : ∀ l : List String, nodupB l = true → l.Nodup := by
-  intro l
-  induction l with
-  | nil => intro _; exact List.nodup_nil
-  | cons x r ih =>
-    intro h
-    simp only [nodupB, Bool.and_eq_true, Bool.not_eq_true', List.contains_eq_mem, decide_eq_false_iff_not] at h
-    exact List.nodup_cons.mpr ⟨h.1, ih h.2⟩
-
-theorem renderedYamlKeys_eq (s : StructDesc) :
-    renderedYamlKeys s = (s.fields.filter (keyed .yaml)).map (keyOf .yaml) := by
-  unfold renderedYamlKeys
-  induction s.fields with
-  | nil => rfl
-  | cons fd r ih =>
-    obtain ⟨gn, ty, ex, yk, ys, yo, yi, jk, js, jo⟩ := fd
-    simp only [List.filterMap_cons, List.filter_cons]
-    cases ex <;> cases ys <;> cases yi <;> first | exact ih | exact congrArg (List.cons yk) ih
-
-theorem renderedJsonKeys_eq (s : StructDesc) :
-    renderedJsonKeys s = (s.fields.filter (keyed .json)).map (keyOf .json) := by
-  unfold renderedJsonKeys
-  induction s.fields with
-  | nil => rfl
-  | cons fd r ih =>
-    obtain ⟨gn, ty, ex, yk, ys, yo, yi, jk, js, jo⟩ := fd
-    simp only [List.filterMap_cons, List.filter_cons]
-    cases ex <;> cases js <;> first | exact ih | exact congrArg (List.cons jk) ih
-
 /-- the hypothesis of `struct_fields_rendered` holds for every model type of the source as it is now -/
 theorem model_struct_keys_nodup (s : StructDesc) (hs : s ∈ Gen.structs)
     (hm : (modelTypes Gen.structs Gen.namedTypes).contains s.name = true) (fmt : Fmt) :
